@@ -1,4 +1,5 @@
 import TruthModel.Model.Lower
+import TruthModel.Model.LowerJumps
 import TruthModel.Driver.Sexp
 import TruthModel.Driver.Native
 /-
@@ -193,6 +194,117 @@ def compileCase (case : Sexp) (withLocals : Bool) : Sexp :=
   | .ok (res, instrs) =>
     let locals := Sexp.app "locals" (res.locals.map fun l => .list [.atom (tyName l.ty), Sexp.int l.reg])
     Sexp.app "ok" ((if withLocals then [locals] else []) ++ instrs.filterMap ofStmt)
+  | .err c => Sexp.app "err" [.str c]
+  | .panic p => Sexp.app "panic" [.str "model", .str p]
+
+/-! ### bodies with labels and jumps (`Model/LowerJumps.lean`) -/
+
+def tTwoPart : Nat := 8
+def tCountGt : Nat := 16
+def tTimeFirst : Nat := 32
+def tBothCount : Nat := 64
+def tFewCond : Nat := 256
+def tNoCond : Nat := 512
+def tNoCount : Nat := 1024
+def tNoJmp : Nat := 2048
+def tLocOnly : Nat := 4096
+
+/-- order of `CMP_OPS` in lw.rs -/
+def cmpIndex : BinOp → Option Nat
+  | .eq => some 0 | .ne => some 1 | .lt => some 2 | .le => some 3 | .gt => some 4 | .ge => some 5
+  | _ => none
+
+/-- mirror of `lw::mapfile`, jump intrinsics -/
+def jIntrinsics (table : Nat) : JIntrinsics where
+  base := intrinsics table
+  jmp := if has table tNoJmp then none else some 1
+  condJmp op ty :=
+    match cmpIndex op with
+    | none => none
+    | some k =>
+      let native := (!has table tTwoPart || has table tFewCond) && !has table tNoCond
+      let few := op == .eq || op == .lt || op == .ge
+      if native && (!has table tFewCond || few) then some (80 + 2 * k + tyOff ty) else none
+  cmp ty := if has table tTwoPart then some (94 + tyOff ty) else none
+  cmpJmp op :=
+    match cmpIndex op with
+    | none => none
+    | some k => if has table tTwoPart then some (96 + k) else none
+  countJmp k :=
+    if has table tNoCount then none else
+    match k with
+    | .ne => if !has table tCountGt || has table tBothCount then some 2 else none
+    | .gt => if has table tCountGt || has table tBothCount then some 3 else none
+
+def jumpOrder (table : Nat) : JumpOrder :=
+  if has table tLocOnly then .loc else if has table tTimeFirst then .timeLoc else .locTime
+
+/-- labels are called `lab<N>` -/
+def labelId (s : String) : Nat := ((s.drop 3).toNat?).getD 0
+
+def kwOf (s : String) : Kw := if s == "unless" then .kunless else .kif
+
+def isZeroLit (s : Sexp) : Bool :=
+  match s.head? with
+  | some "i" => (s.args[0]!).asInt == 0
+  | _ => false
+
+/-- `CountJmpKind::of_cond` -/
+def parseCond (env : Env) (s : Sexp) : JCond :=
+  let a := s.args
+  match s.head? with
+  | some "predec" => .predec (parseVar env a[0]!) .ne
+  | some "bin" =>
+    let lhs := a[1]!
+    if lhs.head? == some "predec" && isZeroLit a[2]! then
+      match (a[0]!).asAtom with
+      | "ne" => .predec (parseVar env lhs.args[0]!) .ne
+      | "gt" => .predec (parseVar env lhs.args[0]!) .gt
+      | _ => .expr (parseExpr env s)
+    else .expr (parseExpr env s)
+  | _ => .expr (parseExpr env s)
+
+def optTime (s : Option Sexp) : Option Int := s.map (·.asInt)
+
+/-- `parseBlock` for bodies with labels and jumps -/
+partial def parseBlockJ (env : Env) (ss : List Sexp) : List JSStmt × Env :=
+  let rec go (env : Env) (ss : List Sexp) (acc : List JSStmt) (declared : List Nat) : List JSStmt × Env × List Nat :=
+    match ss with
+    | [] => (acc, env, declared)
+    | s :: rest =>
+      let a := s.args
+      match s.head? with
+      | some "decl" =>
+        let ty := tyOfAtom (a[0]!).asAtom
+        let d := localId (a[1]!).asAtom
+        let init := (a[2]?).map (parseExpr env)
+        go ((d, ty) :: env) rest (acc ++ [.base (.decl d ty init)]) (declared ++ [d])
+      | some "asg" =>
+        go env rest (acc ++ [.base (.assign (assignOfName (a[0]!).asAtom) (parseVar env a[1]!) (parseExpr env a[2]!))]) declared
+      | some "call" =>
+        go env rest (acc ++ [.base (.call (a[0]!).asNat ((a.drop 1).map (parseExpr env)))]) declared
+      | some "anti" => go env rest (acc ++ [.base (.call 105 [])]) declared
+      | some "block" =>
+        let (inner, env') := parseBlockJ env a
+        go env' rest (acc ++ inner) declared
+      | some "label" => go env rest (acc ++ [.label (labelId (a[0]!).asAtom)]) declared
+      | some "goto" => go env rest (acc ++ [.goto ⟨labelId (a[0]!).asAtom, optTime a[1]?⟩]) declared
+      | some "ifgoto" =>
+        go env rest (acc ++ [.condGoto (kwOf (a[0]!).asAtom) (parseCond env a[1]!) ⟨labelId (a[2]!).asAtom, optTime a[3]?⟩]) declared
+      | some "wait" => go env rest (acc ++ [.wait (a[0]!).asInt]) declared
+      | _ => go env rest (acc ++ [.base .other]) declared
+  let (stmts, env', declared) := go env ss [] []
+  (stmts ++ declared.map (fun d => .base (.scopeEnd d)), env')
+
+def firstLabel : Nat := 1000000
+
+/-- the whole compile of one case with labels and jumps -/
+def compileCaseJ (case : Sexp) : Sexp :=
+  let cfg := parseCfg (case.args[0]!)
+  let body := (case.args[1]!).args
+  let (stmts, _) := parseBlockJ [] body
+  match compileJ (jIntrinsics cfg.table) (jumpOrder cfg.table) 255 0 currentMode (hooks cfg.ints cfg.floats) firstTemp firstLabel stmts with
+  | .ok (_, instrs) => Sexp.app "ok" (instrs.filterMap ofStmt)
   | .err c => Sexp.app "err" [.str c]
   | .panic p => Sexp.app "panic" [.str "model", .str p]
 
